@@ -509,13 +509,14 @@ impl WritersHandle {
         let max_level = new_spec.max_level();
         #[cfg(flexi_logger_verif)]
         crate::verif_hooks::point("spec.enter");
-        self.spec
-            .write()
-            .map_err(|_| FlexiLoggerError::Poison)?
-            .update_from(new_spec);
+        // the write lock is held until the global max level is adapted as well, so that
+        // concurrent changes cannot combine one specification with the max level of another
+        let mut spec = self.spec.write().map_err(|_| FlexiLoggerError::Poison)?;
+        spec.update_from(new_spec);
         #[cfg(flexi_logger_verif)]
         crate::verif_hooks::point("spec.updated");
         self.reconfigure(max_level);
+        drop(spec);
         #[cfg(flexi_logger_verif)]
         crate::verif_hooks::point("spec.gate_set");
         Ok(())
